@@ -36,6 +36,9 @@ def producers_in(sv, prod_svs, depth=0):
     return [R for R in prod_svs if contains(sv, lambda x: x == R)]
 
 
+from ..framework import wants
+
+
 def run(env, rep):
     prog, ctx = env.prog, env.ctx
     rep.explanation = (
@@ -46,7 +49,7 @@ def run(env, rep):
         "ChunkSerializer field and no Packet is built outside chunk_io::serializer; R4: the can_be_dropped argument of serialize is "
         "the constant false everywhere except where it is a public media function's own can_be_dropped parameter, and "
         "force_uncompressed is a constant; R5: the session clock is narrowed to u32 by a truncating cast (it wraps like the codec's "
-        "timestamps); R6/R7: the serializer-level rules of C08 R1-R2 and C01 R3 that keep the stream decodable after dropped "
+        "timestamps); R6-R8: the serializer-level rules of C08 R1-R2, C01 R2-R3 and C07 R5 (chunk size announced before use) that keep the stream decodable after dropped "
         "packets and across multi-chunk messages.  Not decided: decodability of the whole stream by a conformant peer at every uptime.")
     n_prod = 0
     n_fn = 0
@@ -199,5 +202,10 @@ def run(env, rep):
               "Packet is also constructed in %s, bypassing the serializer's header state" % sorted(set(outside)))
     # ---- R6 / R7 serializer-level rules that C18's statement also rests on
     from . import C08, C01
-    C08.run(env, PrefixReport(rep, "C08.", "C18.R6.", only=("C08.R1", "C08.R2")))
-    C01.run(env, PrefixReport(rep, "C01.", "C18.R7.", only=("C01.R3",)))
+    if wants(rep, "C18.R6"):
+        C08.run(env, PrefixReport(rep, "C08.", "C18.R6.", only=("C08.R1", "C08.R2")))
+    if wants(rep, "C18.R7"):
+        C01.run(env, PrefixReport(rep, "C01.", "C18.R7.", only=("C01.R2", "C01.R3")))
+    from . import C07
+    if wants(rep, "C18.R8"):
+        C07.run(env, PrefixReport(rep, "C07.", "C18.R8.", only=("C07.R5",)))
